@@ -25,11 +25,14 @@ Definition model_batch strict base qs b : cres json :=
   | Raise x => CRaise (CX x)
   | Ok bq =>
     match recv_batch strict base bq b with
-    | COk (Some (BError e)) => COk (JObj [("error", show_error e); ("result", show_cres (CRaise (CRpc e)))])
+    (* "via_call": what batch.add(...)...call() hands out for the same requests and the same body - the .result of the response *)
+    | COk (Some (BError e)) => COk (JObj [("error", show_error e); ("result", show_cres (CRaise (CRpc e)));
+                                          ("via_call", show_cres (CRaise (CRpc e)))])
     | COk (Some (BList bl)) =>
+        let res := show_cres (match results (b_items bl) with COk l => COk (JArr l) | CRaise x => CRaise x end) in
         COk (JObj [("resps", JArr (map show_response (b_items bl)));
                    ("related", JArr (map (fun r => find_req (resp_id r) qs) (b_items bl)));
-                   ("result", show_cres (match results (b_items bl) with COk l => COk (JArr l) | CRaise x => CRaise x end))])
+                   ("result", res); ("via_call", res)])
     | COk None => COk JNull
     | CRaise x => CRaise x end
   end.
@@ -137,13 +140,22 @@ Definition ok_batch strict base (qs : list request) (b : body) (obs : cres json)
   | _ => true
   end.
 
+(* results read through batch.call() are the results read from the response object *)
+Definition via_call_ok (obs : cres json) : bool :=
+  match obs with
+  | COk o => match obj_get "result" o, obj_get "via_call" o with
+             | Some a, Some b => json_equiv a b
+             | None, None => true
+             | _, _ => false end
+  | CRaise _ => true end.
+
 Definition check (c : case) : nat :=
   match c with
   | CSingle strict base q b obs =>
       verdict (negb (cres_eqb json_equiv (model_single strict base q b) obs)) (negb (ok_single strict base q b obs))
               (match b with BJson (JObj _) => true | _ => false end) 0
   | CBatch strict base qs b obs =>
-      verdict (negb (cres_eqb json_equiv (model_batch strict base qs b) obs)) (negb (ok_batch strict base qs b obs))
+      verdict (negb (cres_eqb json_equiv (model_batch strict base qs b) obs)) (negb (ok_batch strict base qs b obs && via_call_ok obs))
               (match b with BJson (JArr (_ :: _)) => true | _ => false end) 0
   end.
 Definition run (cs : list case) : list nat := map check cs.
